@@ -1314,7 +1314,9 @@ def run_s9(seed, tier, log):
     props, runs = [], []
     depths = [(2, 1000, 2048), (0, 3000, 2048), (5, 8192, 2048), (2, 16000, 2048), (2, 30000, 0), (2, 100000, 512), (4, 250000, 2048)]
     if tier == 'thorough':
-        depths += [(1, 16000, 2048), (4, 16000, 2048), (3, 40000, 0), (2, 1000000, 2048), (5, 1000000, 256), (0, 300000, 2048)]
+        # (protocol 0 has no TUPLE1: the path degenerates into a WIDE stack, whose guards scan it on every step - quadratic -,
+        # so its depth stays moderate)
+        depths += [(1, 16000, 2048), (4, 16000, 2048), (3, 40000, 0), (2, 1000000, 2048), (5, 1000000, 256), (0, 30000, 2048)]
     for (v, n, kb) in depths + [(KNOWN_DEEP['v'], KNOWN_DEEP['n'], KNOWN_DEEP['stack_kb'])]:
         p = subprocess.run([HBIN, 'deep', str(v), str(n), str(kb)], stdout=subprocess.PIPE, stderr=subprocess.PIPE, env=ENV, timeout=600, text=True)
         ok = p.returncode == 0 and 'DEEP-OK' in p.stdout
